@@ -89,6 +89,7 @@ static unsigned spurious_left;
 static unsigned devpos;
 
 static uint64_t heap_live;
+static uint64_t heap_base;        /* what the harness itself allocated for the argument vector */
 
 #define BIT(s) (1ull << (s))
 
@@ -206,10 +207,10 @@ finish(int outcome, int code, int exitcode)
   /* lbzip2 gives back every block before a successful exit (only the argument
      vector of the harness stays): anything else still allocated was lost on
      the way -- per block or per operand, so it grows with the input (C13) */
-  if (outcome == OC_EXIT && (code == 0 || code == 4) && heap_live > 4096) {
+  if (outcome == OC_EXIT && (code == 0 || code == 4) && heap_live > heap_base) {
     if (!(vs_rec->inv_flags & ~(64u | 32u | 128u)))
       snprintf(vs_rec->note, sizeof vs_rec->note, "%llu bytes of heap never released at exit status %d",
-               (unsigned long long)heap_live, code);
+               (unsigned long long)(heap_live - heap_base), code);
     vs_rec->inv_flags |= 1024;
   }
   vs_rec->nthreads = nthreads;
@@ -1535,6 +1536,7 @@ main_wrapper(void *a)
     strcpy(av[i], l_argv[i]);
   }
   av[l_argc] = NULL;
+  heap_base = heap_live;
   rc = lbzip2_main(l_argc, av);
   finish(OC_EXIT, rc, rc);
   return NULL;
